@@ -46,7 +46,6 @@ PairsFn(ps) == [a \in { q[1] : q \in {ps[k] : k \in 1..Len(ps)} } |->
                   (CHOOSE q \in {ps[k] : k \in 1..Len(ps)} : q[1] = a)[2]]
 FrameOf(f) == [caller |-> f.caller, callee |-> f.callee, ft |-> f.ft, fp |-> WP(f.fp),
                args |-> [i \in 1..Len(f.args) |-> WP(f.args[i])]]
-FlagsOf(f) == [strict |-> B(f.strict), real |-> B(f.real), dbg |-> B(f.dbg), ignp |-> B(f.ignp)]
 BlocksOf(bs) == [i \in 1..Len(bs) |-> [s |-> bs[i].s, w |-> bs[i].w]]
 AllocaSeq(al) == [i \in 1..Len(al) |-> <<al[i][1], al[i][2]>>]
 
@@ -126,16 +125,7 @@ NewOK(h) ==
 
 \* Simulator::reset: a new machine with the same flags; flags, MCR handle,
 \* internal-register map and device table are kept and the devices io_reset.
-IoResetDev(d, draws) == CASE d.k = "kbd" -> [d EXCEPT !.ie = FALSE]
-                          [] d.k = "timer" -> [d EXCEPT !.time = draws[d.slot]]
-                          [] OTHER -> d
-ResetTo(s, draws) ==
-  LET f == FromHeader(s.base) IN
-  [f EXCEPT !.flags = s.flags, !.dbgf = s.flags.dbg, !.mcr = s.mcr, !.ireg = s.ireg, !.ports = s.ports,
-            !.devs = [j \in 1..Len(s.devs) |-> IoResetDev(s.devs[j], draws)],
-            !.kbd = IF \E j \in 1..Len(s.devs) : s.devs[j].k = "kbd" THEN <<>> ELSE s.kbd,
-            !.disp = IF \E j \in 1..Len(s.devs) : s.devs[j].k = "disp" THEN <<>> ELSE s.disp,
-            !.memw = <<>>, !.dirty = [a \in DOMAIN s.memw |-> s.memw[a]], !.bps = s.bps]
+ResetTo(s, draws) == ResetOf(s, FromHeader(s.base), draws)
 ResetDrawsOK(s, draws) == \A j \in 1..Len(s.devs) : s.devs[j].k = "timer" =>
                              draws[s.devs[j].slot] >= s.devs[j].lo /\ draws[s.devs[j].slot] <= s.devs[j].hi
 
@@ -155,7 +145,6 @@ ApplyStep(s, r) ==
          \cup (IF StrictRel(s, env) THEN {} ELSE {"strictrel"})
          \cup (IF IntGate(s, r) THEN {} ELSE {"intgate"})]
 
-BpOf(b) == [k |-> b.k, a |-> b.a, c |-> [k |-> b.c.k, v |-> b.c.v]]
 EnvsOf(es) == [i \in 1..Len(es) |-> [lockK |-> B(es[i].lockK), lockD |-> B(es[i].lockD), ints |-> es[i].ints,
                                       draws |-> es[i].draws, clr |-> B(es[i].clr)]]
 
